@@ -73,6 +73,11 @@ class Mode:
             from . import sym as S
 
             return S.Sym.symbol(name, kind)
+        if name not in self.env:
+            # symbols that do not occur in the failed obligation: deterministic filler values
+            h = int(hashlib.sha1(name.encode()).hexdigest()[:8], 16)
+            self.env[name] = Fraction(30 + h % 271, 100) if kind == "pos" else Fraction(h % 401 - 200, 100)
+            self.F.env = self.env
         return self.F.real(name)
 
     def real(self, name):
@@ -209,9 +214,11 @@ def find_counterexample(vg, ve, used, tries=12, seed=None):
 
     C = alg.ctx()
     rng = random.Random(seed if seed is not None else int(os.environ.get("VERIF_SEED", "0")) + 7919)
-    allsyms = dict(used)
-    for s, name in enumerate(C.names):
-        if C.kinds[s] in ("real", "pos", "opq") and name not in allsyms and name != "pi" and s not in C.boysinfo \
+    occurring = _symbols_in(vg) | _symbols_in(ve)
+    allsyms = {}
+    for s in occurring:
+        name = C.names[s]
+        if C.kinds[s] in ("real", "pos", "opq") and name != "pi" and s not in C.boysinfo \
                 and not any(t == s for t, _ in C.logs):
             allsyms[name] = C.kinds[s]
     for _ in range(tries):
@@ -232,6 +239,34 @@ def find_counterexample(vg, ve, used, tries=12, seed=None):
         if abs(a - b) > F.num(Fraction(1, 10**20)) * scale:
             return {"env": {k: str(v) for k, v in env.items()}, "got": _num(a), "exp": _num(b)}
     return None
+
+
+def _symbols_in(v, depth=0):
+    """symbols a canonical value depends on (through atoms too)"""
+    from . import alg
+
+    C = alg.ctx()
+    out = set()
+    polys = [v.n] + [C.factors[f] for f in v.df]
+    for p in polys:
+        for m in p:
+            for s, _ in C.items(m):
+                out.add(s)
+    for s, _ in C.items(v.dm):
+        out.add(s)
+    if depth < 6:
+        for s in list(out):
+            if s in C.radf:
+                out |= _symbols_in(alg.Value(C.factors[C.radf[s]]), depth + 1)
+            elif s in C.expsyms:
+                out |= _symbols_in(C.expsyms[s], depth + 1)
+            elif s in C.boysinfo:
+                out |= _symbols_in(C.boysinfo[s][1], depth + 1)
+            else:
+                for t, a in C.logs:
+                    if t == s:
+                        out |= _symbols_in(a, depth + 1)
+    return out
 
 
 # --------------------------------------------------------------------------------------------
